@@ -909,3 +909,22 @@ pub fn check_day(day: u32, cx: &mut Cx) -> Res {
     }
     Ok(())
 }
+
+/// libFuzzer entry (engine E6): the same oracles as the proptest generators, fed from raw bytes.
+/// Byte 0 selects how the rest is interpreted so that byte-slice entry points see non-UTF-8 input too.
+pub fn fuzz_entry(data: &[u8]) -> Res {
+    vcore::with_cx("C15", |cx| {
+        let Some((mode, rest)) = data.split_first() else { return Ok(()) };
+        match mode % 4 {
+            0 => {
+                check_trace_id_bytes(rest, cx)?;
+                check_span_id_bytes(rest, cx)?;
+                check_flags_bytes(rest, cx)
+            }
+            _ => {
+                let text = String::from_utf8_lossy(rest);
+                check_any_text(&text, cx)
+            }
+        }
+    })
+}
